@@ -28,6 +28,13 @@ ASSUMPTIONS = ['documented errors = ValueError/IndexError/KeyError as in the doc
 V = st.integers(0, 5)
 VS = st.one_of(st.integers(0, 5), st.sampled_from(['a', 'b']))
 POS = st.integers(-4, 4)
+# list elements: small ints plus values that compare equal to them but are other objects (1 == 1.0 == True): a list keeps
+# whichever was put where, so contents are compared by type and value
+VL = st.one_of(st.integers(0, 5), st.integers(0, 5), st.sampled_from([0.0, 1.0, 2.0, True, False]))
+
+
+def typed(seq):
+    return [(type(x).__name__, x) for x in seq]
 
 
 def ops_for(kind):
@@ -36,9 +43,9 @@ def ops_for(kind):
     if kind == 'counter':
         return st.one_of(T(J('set'), V), T(J('add'), V), T(J('sub'), V), T(J('inc')), T(J('get')))
     if kind == 'list':
-        return st.one_of(T(J('reset'), st.lists(V, max_size=4)), T(J('set'), POS, V), T(J('append'), V), T(J('extend'), st.lists(V, max_size=3)),
-                         T(J('insert'), POS, V), T(J('remove'), V), T(J('pop'), POS), T(J('pop')), T(J('sort')), T(J('sort'), st.booleans()),
-                         T(J('index'), V), T(J('count'), V), T(J('get'), POS), T(J('__getitem__'), POS), T(J('__setitem__'), POS, V), T(J('__len__')))
+        return st.one_of(T(J('reset'), st.lists(VL, max_size=5)), T(J('set'), POS, VL), T(J('append'), VL), T(J('extend'), st.lists(VL, max_size=3)),
+                         T(J('insert'), POS, VL), T(J('remove'), V), T(J('pop'), POS), T(J('pop')), T(J('sort')), T(J('sort'), st.booleans()), T(J('sort'), st.just(True)),
+                         T(J('index'), V), T(J('count'), V), T(J('get'), POS), T(J('__getitem__'), POS), T(J('__setitem__'), POS, VL), T(J('__len__')))
     if kind == 'dict':
         return st.one_of(T(J('reset'), st.lists(st.tuples(VS, V).map(list), max_size=3)), T(J('__setitem__'), VS, V), T(J('set'), VS, V), T(J('setdefault'), VS, V),
                          T(J('update'), st.lists(st.tuples(VS, V).map(list), max_size=3)), T(J('pop'), VS), T(J('pop'), VS, V), T(J('clear')),
@@ -232,7 +239,7 @@ def contents(kind, b):
     if kind == 'counter':
         return b.get()
     if kind == 'list':
-        return (list(b.rawData()), len(b))
+        return (typed(b.rawData()), len(b))
     if kind == 'dict':
         return (sorted(b.items(), key=repr), len(b))
     if kind == 'set':
@@ -249,7 +256,7 @@ def model_contents(kind, m):
     if kind == 'counter':
         return m[0]
     if kind == 'list':
-        return (list(m), len(m))
+        return (typed(m), len(m))
     if kind == 'dict':
         return (sorted(m.items(), key=repr), len(m))
     if kind == 'set':
@@ -280,7 +287,7 @@ def compare_call(kind, name, args, mres, mexc, res, exc, model_before):
         if res not in model_before:
             return ('set-pop-not-a-member', '%s returned %r which is not in %r' % (call, res, model_before))
         return None
-    if res != mres:
+    if res != mres or (kind == 'list' and type(res) is not type(mres)):
         return ('wrong-result:%s.%s' % (kind, name), '%s returned %r, the builtin gives %r' % (call, res, mres))
     return None
 
